@@ -226,6 +226,10 @@ Section Check.
                          && list_eqb (fun u v => String.eqb (fst (fst u)) (fst (fst v)) && (snd (fst u) =? snd (fst v)) && (snd u =? snd v))
                                      (snd x) (snd y)) a b.
 
+  (* saving the result with -proto and reopening it gives the same report: same total (with
+     -diff_base: the base total, so the same percentages) and the same entries *)
+  Definition diff_base_roundtrip (o : observed) : bool := reports_eqb (o_reports o) (o_reports2 o).
+
   (* None = the run ended in an error *)
   Definition spec_ok (o : option observed) : bool :=
     if spec_compatible uts nm srcs bases then
@@ -236,7 +240,7 @@ Section Check.
           Nat.eqb (List.length (o_types o)) (List.length ts)
           && Nat.eqb (List.length (o_reports o)) (List.length ts)
           && forallb (fun jt => check_column o (fst jt) (snd jt)) (List.combine (seq 0 (List.length ts)) ts)
-          && reports_eqb (o_reports o) (o_reports2 o)
+          && diff_base_roundtrip o
           && (negb (self_diff && negb db) || Nat.eqb (o_nsamples o) 0)
           && (negb self_diff || forallb (fun r => match snd r with [] => true | _ => false end) (o_reports o))
       end
